@@ -250,12 +250,14 @@ class Indicator(ABC):
         """Adds sub indicator, this will auto calculate with indicator"""
         indicator._sub_indicator = True
         indicator._sub_calc_prior = prior_calc
+        indicator.round_value = max(indicator.round_value, self.round_value)
         indicator.candle_manager = self._candles
         self.sub_indicators[indicator.name] = indicator
 
     def add_managed_indicator(self, name: str, indicator: Managed | Indicator):
         """Adds managed sub indicator, this will not auto calculate with indicator"""
         indicator._sub_indicator = True
+        indicator.round_value = max(indicator.round_value, self.round_value)
         indicator.candle_manager = self._candles
         self.managed_indicators[name] = indicator
 
